@@ -440,7 +440,7 @@ func ruleDispatchTables(c *eng.Ctx) {
 		// ReadBytes(length): the argument derives from the Length value
 		okLen := false
 		for _, ci := range eng.CallsNamed(fn, false, "core.(*Lexer).ReadBytes") {
-			for v := range eng.SliceInter(ci.Common().Args[1], nil, lenCluster) {
+			for v := range eng.SliceInter(eng.ArgsWithRecv(ci)[1], nil, lenCluster) {
 				if ta, ok := v.(*ssa.TypeAssert); ok && (eng.TypeName(ta.AssertedType) == "core.Int") {
 					okLen = true
 				}
@@ -512,6 +512,14 @@ func callsAnchor(p *eng.Prog, fn *ssa.Function, name string) bool {
 	for _, ci := range eng.Calls(fn, false, func(string, ssa.CallInstruction) bool { return true }) {
 		if eng.StaticCallee(ci) == target {
 			return true
+		}
+		// called through a function value chosen by a helper (a method value returned by a selector function)
+		if cands, ok := eng.DynCallees(ci); ok {
+			for _, g := range cands {
+				if g == target {
+					return true
+				}
+			}
 		}
 	}
 	return false
